@@ -260,4 +260,61 @@ theorem row_getElem? (img : Image) (y : Int) (hy0 : 0 ≤ y) (hyH : y < img.h) (
     rw [List.getElem?_eq_none (by simpa using hx)]
     rfl
 
+/-! ## the quantities of the property statement -/
+
+/-- out = max(req, n + Q) -/
+def outSize (req : Int) (n : Nat) (Q : Int) : Int := max req ((n : Int) + Q)
+/-- per-axis scale ⌊out / (n+Q)⌋ -/
+def axisScale (req : Int) (n : Nat) (Q : Int) : Int := outSize req n Q / ((n : Int) + Q)
+/-- pad = ⌊(out − n·s)/2⌋ -/
+def padOf (out : Int) (n : Nat) (s : Int) : Int := (out - (n : Int) * s) / 2
+
+/-! ## arithmetic facts shared by the three renderers -/
+
+theorem axis_facts (req : Int) (n : Nat) (Q : Int) (hn : 1 ≤ n) (hQ : 0 ≤ Q) :
+    1 ≤ axisScale req n Q ∧ axisScale req n Q * ((n : Int) + Q) ≤ outSize req n Q ∧
+    outSize req n Q < (axisScale req n Q + 1) * ((n : Int) + Q) := by
+  have hA : 0 < (n : Int) + Q := by omega
+  have hge : (n : Int) + Q ≤ outSize req n Q := by unfold outSize; omega
+  refine ⟨?_, Int.ediv_mul_le _ (by omega), Int.lt_ediv_add_one_mul_self _ hA⟩
+  unfold axisScale
+  exact (Int.le_ediv_iff_mul_le hA).2 (by omega)
+
+/-- a scale `s` between 1 and the axis scale leaves at least `Q·s` white pixels, split evenly -/
+theorem pad_facts (out : Int) (n : Nat) (Q s a : Int) (hQ : 0 ≤ Q)
+    (h1 : 1 ≤ s) (hsa : s ≤ a) (ha : a * ((n : Int) + Q) ≤ out) :
+    0 ≤ (n : Int) * s ∧ 0 ≤ Q * s ∧ (n : Int) * s + Q * s ≤ out := by
+  have h0 : 0 ≤ (n : Int) + Q := by omega
+  have e : s * ((n : Int) + Q) ≤ a * ((n : Int) + Q) := Int.mul_le_mul_of_nonneg_right hsa h0
+  rw [Int.mul_add, Int.mul_comm s n, Int.mul_comm s Q] at e
+  exact ⟨Int.mul_nonneg (by omega) (by omega), Int.mul_nonneg hQ (by omega), by omega⟩
+
+/-- centre sampling follows from the pixel formula (shared by QR and Data Matrix) -/
+theorem centres_of_pixel (mw mh : Nat) (m : Nat → Nat → Bool) (img : Image) (s padX padY : Int)
+    (hs1 : 1 ≤ s)
+    (hpx : ∀ x y : Int, img.px x y = true ↔
+        (padX ≤ x ∧ x < padX + (mw : Int) * s ∧ padY ≤ y ∧ y < padY + (mh : Int) * s ∧
+          m ((x - padX) / s).toNat ((y - padY) / s).toNat = true)) :
+    ∀ i j : Nat, i < mw → j < mh →
+      img.px (padX + (i : Int) * s + s / 2) (padY + (j : Int) * s + s / 2) = m i j := by
+  intro i j hi hj
+  have hs0 : 0 < s := by omega
+  have ei : ((i : Int) + 1) * s ≤ (mw : Int) * s := Int.mul_le_mul_of_nonneg_right (by omega) (by omega)
+  have ej : ((j : Int) + 1) * s ≤ (mh : Int) * s := Int.mul_le_mul_of_nonneg_right (by omega) (by omega)
+  rw [Int.add_mul] at ei ej
+  have ni : 0 ≤ (i : Int) * s := Int.mul_nonneg (by omega) (by omega)
+  have nj : 0 ≤ (j : Int) * s := Int.mul_nonneg (by omega) (by omega)
+  have bi : ((padX + (i : Int) * s + s / 2 - padX) / s).toNat = i :=
+    (block_index s _ i hs0 (by omega)).1 ⟨by omega, by omega⟩
+  have bj : ((padY + (j : Int) * s + s / 2 - padY) / s).toNat = j :=
+    (block_index s _ j hs0 (by omega)).1 ⟨by omega, by omega⟩
+  have h := hpx (padX + (i : Int) * s + s / 2) (padY + (j : Int) * s + s / 2)
+  rw [bi, bj] at h
+  cases hm : m i j with
+  | true => rw [h]; exact ⟨by omega, by omega, by omega, by omega, hm⟩
+  | false =>
+    cases hp : img.px (padX + (i : Int) * s + s / 2) (padY + (j : Int) * s + s / 2) with
+    | false => rfl
+    | true => rw [hp] at h; have := (h.1 rfl).2.2.2.2; rw [hm] at this; cases this
+
 end Gzx.Render
